@@ -140,6 +140,23 @@ def verbosity(P, R):
         for s in f.stores():
             if is_var(s.ev.get('lhs'), 'verbose_debug'):
                 R.ob('C09.GRD.1', f.key in handlers, s, 'the debug flag is set only by a command-line option handler', key='debug-flag-writer', nontrivial=False)
+    # ... and only by the handlers of the options documented to produce console output (--debug, and --check-config,
+    # which never reaches the event loop): the option table says which handler belongs to which option
+    rows = {}
+    for unit, g in P.globals.get('args', []):
+        if isinstance(g.get('init'), dict):
+            for it in g['init'].get('items', []):
+                fl = it.get('fields') or {}
+                h = (fl.get('handler') or {}).get('name')
+                if h:
+                    rows.setdefault(h, []).append((fl.get('long_arg') or {}).get('v'))
+    if rows:
+        for f in P.fns.values():
+            for s in f.stores():
+                if is_var(s.ev.get('lhs'), 'verbose_debug'):
+                    opts = rows.get(f.name, [])
+                    R.ob('C09.GRD.1', bool(opts) and set(opts) <= {'debug', 'check-config'}, s, 'the debug flag is set by the handler of --debug / --check-config (this handler serves: %s)' % (opts or 'no option'),
+                         key='debug-flag-option')
     # other callers of the verbosity setter
     if setter is not None:
         for s in P.callers(setter, may=True):
